@@ -1035,14 +1035,21 @@ def schwarz_parameters(A, subdomain=None, subdomain_ptr=None,
     """
     # Check if A has a pre-existing set of Schwarz parameters
     if hasattr(A, 'schwarz_parameters'):
+        cached = A.schwarz_parameters
+        # check that the existing parameters correspond to the same
+        # subdomains (the default subdomains are the rows of A) ...
         if subdomain is not None and subdomain_ptr is not None:
-            # check that the existing parameters correspond to the same
-            # subdomains
-            if np.array(A.schwarz_parameters[0] == subdomain).all() and \
-               np.array(A.schwarz_parameters[1] == subdomain_ptr).all():
-                return A.schwarz_parameters
+            same = np.array_equal(cached[0], subdomain) and \
+                np.array_equal(cached[1], subdomain_ptr)
         else:
-            return A.schwarz_parameters
+            same = np.array_equal(cached[0], A.indices) and \
+                np.array_equal(cached[1], A.indptr)
+        # ... and, if the caller supplies them, to the same inverses
+        if same and inv_subblock is not None and inv_subblock_ptr is not None:
+            same = np.array_equal(cached[2], inv_subblock) and \
+                np.array_equal(cached[3], inv_subblock_ptr)
+        if same:
+            return cached
 
     # Default is to use the overlapping regions defined by A's sparsity pattern
     if subdomain is None or subdomain_ptr is None:
